@@ -444,6 +444,21 @@ def msgLadder (q : Req) (l : Lookups) : Rung :=
   else if l.failure.isSome then .failure
   else .miss
 
+/-- What a client of the decoded path gets. -/
+inductive MsgOut where
+  /-- `isValidQuery` failed: cancelled, no reply -/
+  | drop
+  /-- RD clear on a non-root name: SERVFAIL, nothing looked up -/
+  | noRecursion
+  | rung (r : Rung)
+deriving DecidableEq, Repr
+
+/-- `Cache.ServeDNS` after materialisation: the gates in front of the ladder, then the ladder. -/
+def msgServe (q : Req) (isRoot : Bool) (l : Lookups) : MsgOut :=
+  if !q.classKnown || !q.typeKnown then .drop
+  else if !isRoot && !q.rd then .noRecursion
+  else .rung (msgLadder q l)
+
 inductive Commit where
   | ok | fallback | transportErr
 deriving DecidableEq, Repr
@@ -834,5 +849,76 @@ def msgCutFlags (rd noad : Bool) : Nat :=
 def msgFailureFlags (rd cd : Bool) : Nat :=
   ({ qr := true, opcode := 0, aa := false, tc := false, rd := rd, ra := true, z := false, ad := false, cd := cd,
      rcode := 2 } : Hdr).encode
+
+/-! ### the cache-contained alias chase (`entry_wire_chase.go`) -/
+
+inductive HopKind where
+  | cname | terminal | nxdomain | nodata | baggage | missing
+deriving DecidableEq, Repr
+
+/-- One cached entry on the alias path (name id = position in the cache list, id 0 = the question name). -/
+structure Hop where
+  kind : HopKind
+  /-- AD bit of the stored header -/
+  ad : Bool
+  /-- entry lifetime in seconds -/
+  ttl : Nat
+  /-- name id the alias points to -/
+  target : Nat
+deriving DecidableEq, Repr
+
+def maxWireChaseHops : Nat := 10
+
+/-- `Cache.collectWireChase`: the ids of the hops used, in chain order; `none` =
+some hop was not cache-contained in composable form. `qtOK` = the terminal
+record's type is one the composer re-encodes; `el` = age in milliseconds. -/
+def walkChase (cache : List Hop) (qtOK : Bool) (el : Nat) : Nat → Nat → List Nat → List Nat → Option (List Nat)
+  | 0, _, _, _ => none
+  | fuel + 1, cur, visited, acc =>
+    if acc.length ≥ maxWireChaseHops then none else
+    match cache[cur]? with
+    | none => none
+    | some h =>
+      if h.ttl * 1000 ≤ el then none else
+      match h.kind with
+      | .terminal => if qtOK then some (acc ++ [cur]) else none
+      | .cname =>
+        -- an alias back at the question, or at a target already followed, is the Msg path's business
+        if h.target = 0 then none
+        else if h.target ∈ visited then none
+        else walkChase cache qtOK el fuel h.target (visited ++ [h.target]) (acc ++ [cur])
+      | _ => none
+
+structure ChaseReply where
+  hops : Nat
+  /-- AD bit of the composed body -/
+  ad : Bool
+  /-- `WireInfo.AuthenticatedData` -/
+  infoAD : Bool
+  /-- TTL stamped on each hop's records -/
+  ttls : List Nat
+deriving DecidableEq, Repr
+
+/-- `composeWireChase`: the alias header is copied, AD is the conjunction over
+the segments (`if !ad { ClearAD }`), cleared for a CD request; every segment's
+records get that segment's remaining lifetime. -/
+def composeChase (cache : List Hop) (el : Nat) (cd : Bool) (ids : List Nat) : ChaseReply :=
+  let segs := ids.filterMap (cache[·]?)
+  let ad := segs.all (·.ad)
+  let bodyAD := (segs.head?.map (·.ad)).getD false      -- copied alias header
+  let bodyAD := if !ad then false else bodyAD
+  let bodyAD := if cd && ad then false else bodyAD
+  { hops := ids.length, ad := bodyAD, infoAD := if cd && ad then false else ad,
+    ttls := segs.map (fun h => (h.ttl * 1000 - el) / 1000) }
+
+/-- `Cache.serveChaseHit` up to the lease: walk from the alias (id 0), then compose. -/
+def wireChase (cache : List Hop) (qtOK : Bool) (el : Nat) (cd : Bool) : Option ChaseReply :=
+  (walkChase cache qtOK el (maxWireChaseHops + 1) 0 [] []).map (composeChase cache el cd)
+
+/-- what the decoded chase (`additionalAnswer` through the sub-pipeline, each hop a
+`ToMsg` of its own entry, AD AND-ed hop by hop, off for CD) answers over the same hops -/
+def msgChase (cache : List Hop) (el : Nat) (cd : Bool) (ids : List Nat) : Bool × List Nat :=
+  let segs := ids.filterMap (cache[·]?)
+  (segs.foldl (fun acc h => acc && h.ad) true && !cd, segs.map (fun h => (h.ttl * 1000 - el) / 1000))
 
 end SdnsVerif.Model.WirePath
